@@ -1,8 +1,9 @@
 (* C04 — ITS releases inbound tokens only for approved trusted messages, at most once.
    Statements only; proofs in Proofs/ItsFacts.v. *)
 From Coq Require Import String List Arith NArith Lia Bool.
-From Ax Require Import Lib.Bytes Lib.Mvx Lib.SolAbi Lib.Keccak Model.Check Model.Env Model.Gateway Model.TokenManager Model.Its
-     Proofs.GatewayMsgs Proofs.TMFacts Proofs.ItsFacts Proofs.ItsWorld Proofs.ItsMore Proofs.ItsGw Gen.Generated.
+From Coq Require Import Init.Byte.
+From Ax Require Import Lib.Bytes Lib.Mvx Lib.SolAbi Lib.Keccak Model.Check Model.Env Model.Gateway Model.GatewayCheck Model.TokenManager Model.Its
+     Proofs.GatewayMsgs Proofs.TMFacts Proofs.ItsFacts Proofs.ItsWorld Proofs.ItsMore Proofs.ItsGw Proofs.ItsGwOrigin Gen.Generated.
 Import ListNotations.
 Open Scope N_scope.
 
@@ -56,11 +57,77 @@ Section C04.
     (exists ty tid osrc dest amount, dec_impl [PUint; PBytes32; PBytes; PBytes; PUint; PBytes] payload = Some [TUint ty; TBytes32 tid; TBytes osrc; TBytes dest; TUint amount; TBytes []]) ->
     forall ops c2 orig2 src2 ph2 payload2, process_transfer H (irun H verify w' ops) c2 orig2 chain id src2 ph2 payload2 = None.
   Proof. exact (released_once_forever H verify). Qed.
+  (* ---- END TO END (Proofs/ItsGwOrigin.v) ----
+     the gateway inside the ITS world is driven by gateway operations only -- the gateway transactions of the history and the
+     validateMessage calls of the service (all 25 operation kinds) -- so the theorems about gateway histories hold of it; in
+     particular an approval it holds was put there by an approveMessages transaction of THIS history that the gateway accepted
+     (by c01_sound: under a weighted-threshold proof of a registered signer set inside the retention window), and a released
+     transfer traces back to such a transaction whose batch named exactly this message *)
+  Theorem c04_gateway_projection : forall ops w,
+    exists os, iw_gw (irun H verify w ops) = grun H verify (iw_gw w) os /\ Forall (fun o => In (IGateway o) ops \/ is_val o) os.
+  Proof. exact (its_gateway_projection H verify). Qed.
+  Theorem c04_approval_from_history : forall ops w k h,
+    mst (iw_gw w) k = None ->
+    mst (iw_gw (irun H verify w ops)) k = Some (MApproved h) ->
+    exists c raw p ms m pre,
+      In (IGateway (GApprove c raw p)) ops /\ dec_messages_top raw = Some ms /\ In m ms /\ mkey m = k /\ h = mhash H m /\
+      Forall (fun o => In (IGateway o) ops \/ is_val o) pre /\
+      approve_messages H verify (grun H verify (iw_gw w) pre) raw p <> None.
+  Proof. exact (its_approval_from_history H verify). Qed.
+  Theorem c04_release_traces_to_batch : forall ops w0 c orig chain id src ph payload w' ev token_id osrc dest amount ty,
+    mst (iw_gw w0) (chain, id) = None ->
+    dec_impl [PUint; PBytes32; PBytes; PBytes; PUint; PBytes] payload = Some [TUint ty; TBytes32 token_id; TBytes osrc; TBytes dest; TUint amount; TBytes []] ->
+    process_transfer H (irun H verify w0 ops) c orig chain id src ph payload = Some (w', ev) ->
+    exists cg raw p ms m pre,
+      In (IGateway (GApprove cg raw p)) ops /\ dec_messages_top raw = Some ms /\ In m ms /\ mkey m = (chain, id) /\
+      mhash H m = message_hash H chain id src (ic_self c) ph /\
+      Forall (fun o => In (IGateway o) ops \/ is_val o) pre /\
+      approve_messages H verify (grun H verify (iw_gw w0) pre) raw p <> None.
+  Proof. exact (release_traces_to_batch H verify). Qed.
 End C04.
 Print Assumptions c04_release_requires.
 Print Assumptions c04_once.
 Print Assumptions c04_executed_forever.
 Print Assumptions c04_released_once_forever.
+Print Assumptions c04_approval_from_history.
+Print Assumptions c04_release_traces_to_batch.
 Check c04_release_requires.
 Check c04_once.
 Check c04_released_once_forever.
+
+(* non-vacuity of the end-to-end statement: a gateway with a registered 3-member signer set (threshold 4) and no messages; the history
+   is ONE gateway transaction -- approveMessages with a batch naming (ethereum, id-1) for the service, signed by members 2 and 3 --
+   after which the service releases the transfer: the premises of c04_release_traces_to_batch hold *)
+Module E2E.
+  Import Findings.
+  Definition k1 := be_enc 32 11. Definition k2 := be_enc 32 22. Definition k3 := be_enc 32 33.
+  Definition W : wsigners := {| ws_signers := [ {| s_key := k1; s_weight := 1 |}; {| s_key := k2; s_weight := 2 |}; {| s_key := k3; s_weight := 3 |} ];
+                                ws_threshold := 4; ws_nonce := zeros 32 |}.
+  Definition dom := be_enc 32 7.
+  Definition pay : bytes :=
+    match enc_impl [TUint 0; TBytes32 tid; TBytes (str "0xsender"); TBytes dest; TUint 10; TBytes []] with Some p => p | None => [] end.
+  Definition batch : bytes := enc_buf (str "ethereum") ++ enc_buf (str "id-1") ++ enc_buf (str "0xITS") ++ self ++ keccak256 pay.
+  Definition D := digest keccak256 dom (signers_hash keccak256 W) (data_hash keccak256 CMD_APPROVE batch).
+  Definition sg (k : bytes) := k ++ k.
+  Definition vfo (key msg sig : bytes) : bool := bytes_eqb msg D && bytes_eqb sig (sg key).
+  Definition proof_bytes (sigs : list (option bytes)) : bytes :=
+    enc_wsigners W ++ enc_u32 (Nlen sigs) ++ concat (map (fun o => match o with None => [x00] | Some s => x01 :: s end) sigs).
+  Definition g0 := match gw_init keccak256 100 2 dom 10 (be_enc 32 1) [enc_wsigners W] with Some (g, _) => g | None => empty_gw end.
+  Definition w0 : iworld :=
+    {| iw_gw := g0; iw_its := its0 [(str "ethereum", str "0xITS")] false; iw_tms := [(tma, tm0 0)];
+       iw_led := [((tma, tok), 100)]; iw_pend := []; iw_next := 0 |}.
+  Definition ops : list iop :=
+    [IGateway (GApprove {| c_caller := user; c_owner := A 1; c_now := 200 |} batch (proof_bytes [None; Some (sg k2); Some (sg k3)]))].
+End E2E.
+Example c04_end_to_end_nonvacuous :
+  let w := irun keccak256 E2E.vfo E2E.w0 E2E.ops in
+  mst (iw_gw E2E.w0) (str "ethereum", str "id-1") = None /\
+  dec_impl [PUint; PBytes32; PBytes; PBytes; PUint; PBytes] E2E.pay =
+    Some [TUint 0; TBytes32 Findings.tid; TBytes (str "0xsender"); TBytes Findings.dest; TUint 10; TBytes []] /\
+  match process_transfer keccak256 w (Findings.cx Findings.user no_value) (str "ethereum") (str "ethereum") (str "id-1") (str "0xITS") (keccak256 E2E.pay) E2E.pay with
+  | Some (w', _) => bal (iw_led w') Findings.dest Findings.tok = 10 /\ mst (iw_gw w') (str "ethereum", str "id-1") = Some MExecuted
+  | None => False
+  end.
+Proof. vm_compute. repeat split; reflexivity. Qed.
+Check c04_release_traces_to_batch.
+Check c04_approval_from_history.
